@@ -81,3 +81,9 @@ Definition explain_honest_b (e : env) (g : graph) (roots : list nat) : bool :=
                      | Some n => forallb (fun rd => nmem rd roots || nmem rd em ||
                                                     match alookup rd (heap g) with Some rn => is_meta rn | None => false end) (nrdeps n)
                      | None => false end) (emitted g roots).
+
+(* everything a stack of repositories offers, per project key *)
+Definition stack_keys (rs : repo_stack) : list string :=
+  fold_left (fun acc k => if smem k acc then acc else acc ++ [k]) (flat_map (fun ua => map fst (fst ua)) rs) [].
+Definition flatten_stack (rs : repo_stack) : universe :=
+  map (fun k => (k, flat_map (fun ua => match slookup k (fst ua) with Some l => l | None => [] end) rs)) (stack_keys rs).
